@@ -77,6 +77,10 @@ static i128 pow2i(mp_bitcnt_t n) { return n >= 100 ? IV_INF : ((i128)1) << n; }
 void set_input_term(mpz_class& z, const expr& v, long lo, long hi) { set_sym(z.get_mpz_t(), v, Iv{lo, hi}); }
 
 expr term(const mpz_class& z) { return T(z.get_mpz_t()); }
+expr token_term(const std::string& text) {
+  if (text.size() > 2 && text[0] == '@' && text[1] == 'S') { Term* t = term_of_token(atol(text.c_str() + 2)); if (t) return t->e; }
+  return ctx().int_val(text.c_str());
+}
 expr rterm(const mpz_class& z) { return z3::to_real(T(z.get_mpz_t())); }
 expr rterm(const mpq_class& q) { return z3::to_real(T(q.get_num_mpz_t())) / z3::to_real(T(q.get_den_mpz_t())); }
 
